@@ -7,6 +7,7 @@
         | mf:<m>       SETTINGS MAX_FRAME_SIZE
         | p | r        pause_writing / resume_writing
         | rst          Stream.reset_nowait() on a stream of the connection that is not a sender
+        | of           a peer frame that means nothing to the senders (SETTINGS with other ids)
         | rp           the transport resumes and pauses again from inside the flush write of
                        resume_writing (only if h2 has something queued)
         | run:<i>      one loop iteration of sender i
@@ -23,6 +24,7 @@ let parse_op w =
   match String.split_on_char ':' w with
   | ["rst"] -> `Op ResetAux
   | ["rp"] -> `Op ResumeP
+  | ["of"] -> `Op PeerOther
   | ["ws"; i; k] -> `Op (Op (WinStream (nat_of_int (int_of_string i), zi (int_of_string k))))
   | ["wc"; k] -> `Op (Op (WinConn (zi (int_of_string k))))
   | ["iw"; v] -> `Op (Op (SetInitWin (zi (int_of_string v))))
